@@ -57,6 +57,20 @@ def strip_generics(p):
     return "".join(out)
 
 
+class _Args(list):
+    """argument list of a call site; indexing past the end yields an opaque operand instead of raising, so that rules written for
+    `receiver.method(arg)` shapes simply do not match zero-argument calls"""
+    _MISSING = {"k": {"ty": "<no such argument>", "s": ""}}
+
+    def __getitem__(self, i):
+        if isinstance(i, int):
+            try:
+                return list.__getitem__(self, i)
+            except IndexError:
+                return self._MISSING
+        return list.__getitem__(self, i)
+
+
 class CallSite:
     __slots__ = ("body", "bb", "callee", "resolved", "trait", "args", "dst", "target", "span", "exp", "raw", "targs", "callee_args", "ikind")
 
@@ -70,7 +84,7 @@ class CallSite:
         self.ikind = t.get("ikind")
         self.trait = t.get("trait")
         self.targs = t.get("targs", [])
-        self.args = t["args"]
+        self.args = _Args(t["args"])
         self.dst = t["dst"]
         self.target = t["t"]
         self.span = t.get("sp", "")
